@@ -356,6 +356,7 @@ def r8(run, db):
                 for e in r.get("proj", []) + r.get("trail", []):
                     if e.startswith("f:") and len(e.split(":")) > 2:
                         names.add(e.split(":")[2])
+            rr = [r for r in rr if not (r["k"] == "call" and r["call"].matches(r"Vec::<T>::new$"))]
             run.check(bool(names & {"supervisor", "monitors"}) and all(r["k"] in ("arg", "upvar") for r in rr), "tree-target:%s" % ("monitors" if "monitors" in names else "supervisor"),
                       "notification target originates from this tree's own %s field" % sorted(names & {"supervisor", "monitors"}), "notification target does not originate from the tree's supervisor/monitors fields: %s" % sorted(names), c.where())
     run.anchor("supervision port writers", n, 5)
